@@ -21,6 +21,20 @@ def respToJson : Resp GRat → Json
 def getFilt (j : Json) : Except String (List GRat × List GRat) := do
   pure (← getList getG (← field j "b"), ← getList getG (← field j "a"))
 
+partial def getBank (j : Json) : Except String (Bank GRat) :=
+  match j.getObjVal? "cascade", j.getObjVal? "parallel" with
+  | some (Json.arr ms), _ => do pure (.cascade (← ms.mapM getBank))
+  | _, some (Json.arr ms) => do pure (.parallel (← ms.mapM getBank))
+  | _, _ => do
+    let (b, a) ← getFilt j
+    pure (.filt b a)
+
+/-- does constructing the object raise?  (a leaf without denominator term) -/
+partial def bankCtor (spec : Bool) : Bank GRat → Bool
+  | .filt b a => if spec then a.all (fun c => decide (c = 0)) else (mkFilter b a).isNone
+  | .cascade ms => ms.any (bankCtor spec)
+  | .parallel ms => ms.any (bankCtor spec)
+
 def optG : Option GRat → Json
   | none => Json.str "nan"
   | some v => gToJson v
@@ -70,6 +84,14 @@ def handle (entry : String) (j : Json) : Except String Json := do
       ("ctor_model", Json.bool (bank.any fun f => (mkFilter f.1 f.2).isNone)),
       ("ctor_spec", Json.bool (bank.any fun f => f.2.all (fun c => decide (c = 0)))),
       ("dens", arr (fun w => arr (fun (f : List GRat × List GRat) => gToJson (evalDirect f.2 w)) bank) ws)]
+  | "tree" =>
+    let t ← getBank (← field j "tree")
+    let ws ← getList getG (← field j "ws")
+    pure <| Json.mkObj [
+      ("model", arr respToJson (elementwise (fun w => Bank.resp w t) ws)),
+      ("spec", arr respToJson (elementwise (fun w => Bank.spec w t) ws)),
+      ("ctor_model", Json.bool (bankCtor false t)),
+      ("ctor_spec", Json.bool (bankCtor true t))]
   | "dft" =>
     let blk ← getList getG (← field j "blk")
     let ws ← getList getG (← field j "ws")
